@@ -200,6 +200,20 @@ def run_sync_schedule(cfg, strays, reply_at, op="get"):
             return
         t0 = time.monotonic()
         req = drivers.open_request(cfg, data)
+        if strays and strays[0] == "flood":
+            # non-matching datagrams back to back from strays[1] to strays[2] (the client is busy skipping when T passes)
+            dgs = [stray_for(cfg, req, i) for i in range(8)]
+            delay = t0 + strays[1] - time.monotonic()
+            if delay > 0 and done.wait(delay):
+                return
+            i = 0
+            while time.monotonic() < t0 + strays[2] and not done.is_set():
+                try:
+                    agent.sendto(dgs[i % 8], addr)
+                except OSError:
+                    return
+                i += 1
+            return
         plan = [(t, stray_for(cfg, req, i)) for i, t in enumerate(strays)]
         if reply_at is not None:
             plan.append((reply_at, reply_for(cfg, req)))
@@ -312,7 +326,10 @@ def schedules_sync(thorough):
         strays = [0.02 * T_SYNC * (i + 1) for i in range(k)]
         res.append((strays, 0.5 * T_SYNC))
         res.append((strays, None))
+    # a flood of non-matching datagrams across the deadline
+    res.append((["flood", 0.5 * T_SYNC, 1.3 * T_SYNC], None))
     if thorough:
+        res.append((["flood", 0.0, 1.2 * T_SYNC], None))
         for k in (1, 2):
             for sp in (0.5, 0.95):
                 strays = [sp * T_SYNC * (i + 1) for i in range(k)]
@@ -341,10 +358,10 @@ def work_sync(chunk):
                     break
             if confirmed:
                 k = len(case["strays"])
-                spacing = "burst" if k and case["strays"][0] < 0.1 * T_SYNC else "spaced"
+                spacing = "burst" if k and case["strays"][0] != "flood" and case["strays"][0] < 0.1 * T_SYNC else ("flood" if k and case["strays"][0] == "flood" else "spaced")
                 res.violation(
                     "sync/%s/%s/strays=%s/reply=%s" % (cfg.version, v[0], ("%d-%s" % (k, spacing)) if k else "0", _rclass(case["reply_at"], T_SYNC)),
-                    "strays at %s s, reply at %s s: %s (confirmed on 3 re-runs)" % ([round(x, 3) for x in case["strays"]], case["reply_at"], v[1]),
+                    "strays at %s s, reply at %s s: %s (confirmed on 3 re-runs)" % ([x if isinstance(x, str) else round(x, 3) for x in case["strays"]], case["reply_at"], v[1]),
                     case,
                 )
             else:
